@@ -22,12 +22,12 @@ struct Sub {
 };
 inline pt::PortsProxy Sub::ports;
 struct Root {
-  int preset = 0; int ri = 0, rj = 0; float rf = 0; bool rt = false; int ro = 0; char rc = 0; char rs[16] = {0}; int ra[12] = {0}; float rfa[4] = {0, 0, 0, 0}; bool en = true; bool vp[3] = {false, false, false};
+  int preset = 0; int ri = 0, rj = 0; float rf = 0; bool rt = false; int ro = 0; char rc = 0; char rs[16] = {0}; int ra[12] = {0}; float rfa[4] = {0, 0, 0, 0}; bool en = true; bool vp[3] = {false, false, false}; int32_t rb[8] = {0};
   Sub sub; Sub *psub = nullptr; Sub subs[3];
 };
 
-enum Field { PRESET, RI, RJ, RF, RT, RO, RC, RS, RA, RFA, EN, VP, NROOT, SI = 20, SF, ST, SO, SS, SA, ON, SJ, SV, NSUBEND };
-enum VKind { K_INT, K_FLOAT, K_BOOL, K_OPT, K_CHAR, K_STR, K_AINT, K_AFLOAT, K_ABOOL };   // K_ABOOL: 'vp#3/on' (array index in the middle of the name)
+enum Field { PRESET, RI, RJ, RF, RT, RO, RC, RS, RA, RFA, EN, VP, RB, NROOT, SI = 20, SF, ST, SO, SS, SA, ON, SJ, SV, NSUBEND };
+enum VKind { K_INT, K_FLOAT, K_BOOL, K_OPT, K_CHAR, K_STR, K_AINT, K_AFLOAT, K_ABOOL, K_BLOBI };   // K_ABOOL: 'vp#3/on' (array index in the middle of the name)
 inline VKind kind_of(int f) {
   switch (f) {
     case PRESET: case RI: case RJ: case SI: case SJ: return K_INT;
@@ -38,18 +38,19 @@ inline VKind kind_of(int f) {
     case RS: case SS: return K_STR;
     case RA: case SA: return K_AINT;
     case VP: case SV: return K_ABOOL;
+    case RB: return K_BLOBI;   // "rb::b" with rBlobType(i): 8 ints exchanged as one blob, saved as an array
     default: return K_AFLOAT;
   }
 }
 inline const char *name_of(int f) {
-  static const char *r[] = {"preset", "ri", "rj", "rf", "rt", "ro", "rc", "rs", "ra", "rfa", "en", "vp"};
+  static const char *r[] = {"preset", "ri", "rj", "rf", "rt", "ro", "rc", "rs", "ra", "rfa", "en", "vp", "rb"};
   static const char *s[] = {"si", "sf", "st", "so", "ss", "sa", "on", "sj", "sv"};
   return f < NROOT ? r[f] : s[f - SI];
 }
 inline const char *spec_of(int f) {
   switch (kind_of(f)) {
     case K_INT: return "::i"; case K_FLOAT: return "::f"; case K_BOOL: return "::T:F"; case K_OPT: return "::i:c:S"; case K_CHAR: return "::c";
-    case K_STR: return "::s"; case K_AINT: return "#12::i"; case K_ABOOL: return "#3/on::T:F"; default: return "#4::f";
+    case K_STR: return "::s"; case K_AINT: return "#12::i"; case K_ABOOL: return "#3/on::T:F"; case K_BLOBI: return "::b"; default: return "#4::f";
   }
 }
 
@@ -64,7 +65,7 @@ struct Val {
     switch (k) {
       case K_FLOAT: return (float)f == (float)o.f;
       case K_STR: return s == o.s;
-      case K_AINT: case K_ABOOL: return ai == o.ai;
+      case K_AINT: case K_ABOOL: case K_BLOBI: return ai == o.ai;
       case K_AFLOAT: { if (af.size() != o.af.size()) return false; for (size_t k2 = 0; k2 < af.size(); k2++) if ((float)af[k2] != (float)o.af[k2]) return false; return true; }
       default: return i == o.i;
     }
@@ -74,7 +75,7 @@ struct Val {
     switch (k) {
       case K_FLOAT: snprintf(b, sizeof b, "%g", f); return b;
       case K_STR: return "\"" + vf::esc(s) + "\"";
-      case K_AINT: case K_ABOOL: { std::string o = "["; for (auto x : ai) o += std::to_string(x) + " "; return o + "]"; }
+      case K_AINT: case K_ABOOL: case K_BLOBI: { std::string o = "["; for (auto x : ai) o += std::to_string(x) + " "; return o + "]"; }
       case K_AFLOAT: { std::string o = "["; for (auto x : af) { snprintf(b, sizeof b, "%g ", x); o += b; } return o + "]"; }
       default: return std::to_string(i);
     }
@@ -156,7 +157,7 @@ inline std::string spell(const Val &v, const PSpec &p) {
     case K_CHAR: return std::string("'") + (char)v.i + "'";
     case K_STR: return pretty_str(v.s);
     case K_ABOOL: { std::string o = "["; for (size_t k = 0; k < v.ai.size(); k++) o += std::string(k ? " " : "") + (v.ai[k] ? "true" : "false"); return o + "]"; }
-    case K_AINT: {
+    case K_AINT: case K_BLOBI: {
       bool all = true; for (auto x : v.ai) if (x != v.ai[0]) all = false;
       if (all) return "[" + std::to_string(v.ai.size()) + "x" + std::to_string(v.ai[0]) + "]";
       std::string o = "["; for (size_t k = 0; k < v.ai.size(); k++) o += (k ? " " : "") + std::to_string(v.ai[k]); return o + "]";
@@ -169,6 +170,7 @@ inline std::string meta_of(const PSpec &p) {
   auto prop = [&](const std::string &k) { m += ":" + k + std::string(1, '\0'); };
   auto map = [&](const std::string &k, const std::string &v) { m += ":" + k + std::string(1, '\0') + "=" + v + std::string(1, '\0'); };
   prop("parameter");
+  if (kind_of(p.field) == K_BLOBI) map("blob type", "i");
   if (p.has_range) { map("min", std::to_string(p.mn)); map("max", std::to_string(p.mx)); }
   for (size_t k = 0; k < p.opts.size(); k++) map("map " + std::to_string(k), p.opts[k]);
   if (p.has_default) {
@@ -200,6 +202,15 @@ inline cb_t field_cb(int f) {
     case RFA: return rArrayFCb(rfa);
     case EN: return rToggleCb(en);
     case VP: return rArrayTCb(vp);
+    case RB: return [](const char *msg, rtosc::RtData &data) {   // blob parameter: query replies the 32 bytes; a blob sets its leading elements (savefiles omit trailing elements that equal the default)
+      ga::Root *obj = (ga::Root *)data.obj;
+      const char *args = rtosc_argument_string(msg);
+      if (!*args) data.reply(data.loc, "b", (int)sizeof obj->rb, obj->rb);
+      else if (!strcmp(args, "b")) {
+        rtosc_blob_t b = rtosc_argument(msg, 0).b;
+        if (b.len >= 0 && b.len <= (int32_t)sizeof obj->rb && b.len % 4 == 0) { memcpy(obj->rb, b.data, (size_t)b.len); data.broadcast(data.loc, "b", b.len, b.data); }
+      }
+    };
 #undef rObject
 #define rObject ga::Sub
     case SI: return rParamICb(si);
@@ -227,7 +238,7 @@ inline Val get_root(const Root &r, int f) {
   Val v;
   switch (f) {
     case PRESET: v.i = r.preset; break; case RI: v.i = r.ri; break; case RJ: v.i = r.rj; break; case RF: v.f = r.rf; break; case RT: v.i = r.rt; break; case RO: v.i = r.ro; break;
-    case RC: v.i = r.rc; break; case RS: v.s = r.rs; break; case RA: v.ai.assign(r.ra, r.ra + 12); break; case RFA: v.af.assign(r.rfa, r.rfa + 4); break; case EN: v.i = r.en; break; case VP: for (int k = 0; k < 3; k++) v.ai.push_back(r.vp[k]); break;
+    case RC: v.i = r.rc; break; case RS: v.s = r.rs; break; case RA: v.ai.assign(r.ra, r.ra + 12); break; case RFA: v.af.assign(r.rfa, r.rfa + 4); break; case EN: v.i = r.en; break; case VP: for (int k = 0; k < 3; k++) v.ai.push_back(r.vp[k]); break; case RB: v.ai.assign(r.rb, r.rb + 8); break;
   }
   return v;
 }
@@ -235,7 +246,7 @@ inline void set_root(Root &r, int f, const Val &v) {
   switch (f) {
     case PRESET: r.preset = (int)v.i; break; case RI: r.ri = (int)v.i; break; case RJ: r.rj = (int)v.i; break; case RF: r.rf = (float)v.f; break; case RT: r.rt = v.i != 0; break; case RO: r.ro = (int)v.i; break;
     case RC: r.rc = (char)v.i; break; case RS: memset(r.rs, 0, 16); memcpy(r.rs, v.s.data(), std::min<size_t>(15, v.s.size())); break;
-    case RA: for (size_t k = 0; k < 12; k++) r.ra[k] = k < v.ai.size() ? (int)v.ai[k] : 0; break; case RFA: for (int k = 0; k < 4; k++) r.rfa[k] = (float)v.af[(size_t)k]; break; case EN: r.en = v.i != 0; break; case VP: for (size_t k = 0; k < 3 && k < v.ai.size(); k++) r.vp[k] = v.ai[k] != 0; break;
+    case RA: for (size_t k = 0; k < 12; k++) r.ra[k] = k < v.ai.size() ? (int)v.ai[k] : 0; break; case RFA: for (int k = 0; k < 4; k++) r.rfa[k] = (float)v.af[(size_t)k]; break; case EN: r.en = v.i != 0; break; case VP: for (size_t k = 0; k < 3 && k < v.ai.size(); k++) r.vp[k] = v.ai[k] != 0; break; case RB: for (size_t k = 0; k < 8; k++) r.rb[k] = k < v.ai.size() ? (int32_t)v.ai[k] : 0; break;
   }
 }
 inline Val get_sub(const Sub &s, int f) {
@@ -376,6 +387,11 @@ inline Val gen_val(int f, const PSpec &p) {
       break;
     }
     case K_ABOOL: for (int k = 0; k < 3; k++) v.ai.push_back(vf::coin()); break;
+    case K_BLOBI: {
+      int base = vf::pick<int>(-100, 100), style = vf::pickn(5), cut = vf::pick<int>(2, 6), base2 = vf::pick<int>(-100, 100), st = vf::oneof<int>({1, -1, 2, 0});
+      for (int k = 0; k < 8; k++) v.ai.push_back(style == 0 ? base : style == 1 ? base + st * k : style == 2 ? (k < cut ? base : base2 + st * (k - cut)) : style == 3 ? (vf::chance(70) ? base : vf::pick<int>(-100, 100)) : vf::pick<int>(-1000, 1000));
+      break;
+    }
     default: for (int k = 0; k < 4; k++) v.af.push_back((double)vf::pick<int>(-40, 40) / 4.0); break;
   }
   return v;
@@ -408,6 +424,7 @@ inline AppSpec gen_spec() {
   if (presets) { PSpec p; p.field = PRESET; p.has_range = true; p.mn = 0; p.mx = 2; p.has_default = true; p.has_preset.assign(3, 0); Val d; d.i = vf::pickn(3); p.dflt.assign(4, d); s.root.push_back(p); }
   for (int f = RI; f < EN; f++) if (vf::chance(55)) s.root.push_back(gen_pspec(f, presets));
   if (vf::chance(35)) s.root.push_back(gen_pspec(VP, false));
+  if (vf::chance(30)) s.root.push_back(gen_pspec(RB, presets));
   s.has_sub = vf::chance(75); s.has_psub = vf::chance(40); s.has_subs = vf::chance(40); s.psub_null = vf::chance(40);
   bool en = (s.has_sub || s.has_psub || s.has_subs) && vf::chance(50);
   if (en) {
@@ -455,6 +472,7 @@ inline std::string encode_set(const Set &s, const PSpec &p) {
     case K_CHAR: tags = "c"; a.t = 'c'; a.u = (uint32_t)s.v.i; break;
     case K_STR: tags = "s"; a.t = 's'; a.s = s.v.s; break;
     case K_ABOOL: addr += std::to_string(s.idx) + "/on"; tags = s.v.ai[(size_t)s.idx] ? "T" : "F"; a.t = tags[0]; break;
+    case K_BLOBI: { tags = "b"; a.t = 'b'; for (size_t k = 0; k < 8; k++) { int32_t x = k < s.v.ai.size() ? (int32_t)s.v.ai[k] : 0; a.s.append((const char *)&x, 4); } break; }
     case K_AINT: addr += std::to_string(s.idx); tags = "i"; a.t = 'i'; a.u = (uint32_t)(int32_t)s.v.ai[(size_t)s.idx]; break;
     default: { addr += std::to_string(s.idx); tags = "f"; a.t = 'f'; float f = (float)s.v.af[(size_t)s.idx]; uint32_t u; memcpy(&u, &f, 4); a.u = u; break; }
   }
